@@ -92,14 +92,19 @@ def canon(cfg):
     return d
 
 
-def gen_history(rng, quick):
+def gen_history(rng, quick, force_twin=False):
     n_inst = rng.randint(2, 4)
     cfgs = []
     for i in range(n_inst):
-        if i > 0 and rng.random() < 0.5:
+        if i > 0 and rng.random() < 0.5 and not (force_twin and i == 1):
             c0 = rng.choice(cfgs)                          # a reproduction of an earlier instance (same seed & parameters),
             st = c0["seed_type"] if c0["seed_type"] == "big" else rng.choice([t for t in SEED_TYPES if t != "big"])
             cfgs.append(dict(c0, seed_type=st))            # the seed possibly held as another integer type
+        elif i > 0 and (rng.random() < 0.4 or (force_twin and i == 1)):
+            # same geometry and seed as an earlier instance but another r0 / L0: anything the library shares between
+            # instances of one geometry (caches, class attributes) would leak from one into the other
+            c0 = rng.choice(cfgs)
+            cfgs.append(dict(c0, r0=rng.choice([0.12, 0.2, 0.31]), seed=rng.choice([c0["seed"], rng.randint(0, 5)])))
         else:
             cfgs.append({"variant": rng.choice(["vk", "vk", "fried"]), "nx": rng.choice([6, 8, 9, 12] if quick else [6, 8, 9, 12, 16, 17]),
                          "px": rng.choice([0.05, 0.1]), "r0": rng.choice([0.1, 0.16]), "L0": rng.choice([10., 25.]),
@@ -178,6 +183,27 @@ def execute(cfgs, ops, observe):
     return outs, fin, touch
 
 
+def solo_in_fresh_interpreter(cfgs, proj, i):
+    """outputs (as sha256 digests) of instance i's own operations run alone in a NEW Python process: nothing the library may
+    have cached or kept from other instances of this process can be shared"""
+    import hashlib
+    import subprocess
+    import sys
+    code = ("import sys, json, hashlib, numpy\n"
+            "sys.path[:0] = %r\n"
+            "from harness.props import c06\n"
+            "cfgs, proj, i = json.loads(sys.stdin.read())\n"
+            "outs, _, _ = c06.execute(cfgs, proj, observe=False)\n"
+            "print(json.dumps([hashlib.sha256(numpy.ascontiguousarray(a).tobytes()).hexdigest() for a in outs.get(i, [])]))\n"
+            % ([common.REPO, common.VERIF],))
+    p = subprocess.run([sys.executable, "-W", "ignore", "-c", code], input=json.dumps([cfgs, proj, i]), capture_output=True,
+                       text=True, timeout=600, env=dict(os.environ, PYTHONPATH=common.REPO + ":" + common.VERIF))
+    lines = [l for l in p.stdout.splitlines() if l.startswith("[")]
+    if p.returncode != 0 or not lines:
+        raise RuntimeError("fresh-interpreter replay failed: " + p.stderr[-500:])
+    return json.loads(lines[-1])
+
+
 def model_line(cfgs, ops):
     toks = []
     for op in ops:
@@ -220,8 +246,9 @@ def run(chk):
     chk.build_and_audit("AoVerif.Props.C06", "AoVerif.Props.C06", REQUIRED)
     n_hist = 20 if quick else 200
     lines, observed, cases = [], [], []
+    fresh_budget = [4 if quick else 40]
     for h in range(n_hist):
-        cfgs, ops = gen_history(chk.rng, quick)
+        cfgs, ops = gen_history(chk.rng, quick, force_twin=(h < 4))
         chk.case(("hist", json.dumps(cfgs, sort_keys=True), json.dumps(ops, sort_keys=True)),
                  sample={"configs": cfgs, "ops": ops[:8]} if h < 2 else None)
         for o in ops:
@@ -250,6 +277,23 @@ def run(chk):
                          "interleaved than when run alone" % (i, cfg["variant"], cfg["seed"]), {"configs": cfgs, "ops": ops, "instance": i})
             if any(not numpy.isfinite(x).all() for x in a):
                 chk.fail("nonfinite:%s" % cfg["variant"], "instance %d produced non-finite values" % i, {"configs": cfgs, "ops": ops})
+        # ... and, for a few instances per run, alone in a fresh interpreter (state kept by the library inside this process,
+        # e.g. a cache shared between instances, is invisible to an in-process replay)
+        if fresh_budget[0] > 0:
+            import hashlib
+            cand = [i for i in range(len(cfgs)) if any(j != i and {k: v for k, v in cfgs[j].items() if k not in ("r0", "seed", "seed_type")}
+                                                        == {k: v for k, v in cfgs[i].items() if k not in ("r0", "seed", "seed_type")}
+                                                        for j in range(i))] or list(range(len(cfgs)))
+            i = cand[-1]
+            fresh_budget[0] -= 1
+            proj = [o for o in ops if o.get("i") == i and o["op"] in ("create", "addRow", "read")]
+            dig = solo_in_fresh_interpreter(cfgs, proj, i)
+            mine = [hashlib.sha256(numpy.ascontiguousarray(a).tobytes()).hexdigest() for a in outs.get(i, [])]
+            chk.count("fresh-interpreter-replays")
+            if dig != mine:
+                chk.fail("isolation:fresh-process:%s" % cfgs[i]["variant"], "instance %d (%s, seed %d, r0 %g) produced different screens in this "
+                         "history than when run alone in a fresh interpreter" % (i, cfgs[i]["variant"], cfgs[i]["seed"], cfgs[i]["r0"]),
+                         {"configs": cfgs, "ops": ops, "instance": i})
         # reproductions: instances with identical configuration and identical own operation sequence
         for i in range(len(cfgs)):
             for j in range(i + 1, len(cfgs)):
